@@ -6,6 +6,8 @@ CONSTANTS
   MaxSeq = 14
   RenewMayFail = TRUE
   Gen = FALSE
+  MayAbort = TRUE
+  Dev_ResetSeqOnAbort = FALSE
   Dev_GateGap = FALSE
   Dev_FailedRenewSeq = FALSE
 INIT Init
